@@ -174,6 +174,8 @@ def vfstr(parts):
             out = out + val
         elif isinstance(val, (SInt, ZInt)) and conv == -1 and spec in ("", "d"):
             out = out + SStr.lift(vfmt("%d", val))
+        elif isinstance(val, (SInt, ZInt)) and conv == -1 and len(spec) == 3 and spec[0] == "0" and spec[1].isdigit() and spec[2] == "d":
+            out = out + SStr.lift(vfmt("%" + spec, val))
         elif isinstance(val, (SInt, ZInt, SStr, SBytes)):
             raise Unsupported("f-string conversion of symbolic %r" % type(val))
         else:
@@ -209,7 +211,18 @@ def vidx(obj, idx):
                         if n is None:
                             raise Unsupported("symbolic slice of symbolic length")
                         return obj.sslice(idx.start, n)
-                    raise Unsupported("symbolic slice bound on %r" % type(obj))
+                    n = len(obj)
+                    hit = None
+                    for kk in range(0, n + 1):
+                        if bool(p == kk):
+                            hit = kk
+                            break
+                    if hit is None:
+                        if bool(p > n):
+                            hit = n + 1
+                        else:
+                            raise Unsupported("negative symbolic slice bound")
+                    c = hit
                 p = c
             conc.append(p)
         return obj[slice(*conc)]
